@@ -18,7 +18,8 @@ EXPLANATION = ('Decided from MIR: (R20.1) panic-site census from urdf::from_urdf
                'lengths from the single non-zero component, and the two-component choice helper is interpreted on point values; (R20.10) every '
                'Parameters value built from a URDFParameters (to_robot, parameters) takes each field from the field of the same name and the '
                'offsets from the caller, the sorting weight of the caller reaches Constraints::new (R20.2); (R20.11) an explicit joint-name list is handed on '
-               'unchanged to every stage of the URDF module that takes one.  That the '
+               'unchanged to every stage of the URDF module that takes one; (R20.12) the limits reader, interpreted with attribute lookup and angle parser '
+               'scripted, returns (angle of lower, angle of upper) and an error value when one is missing, and the origin reader files the numbers of xyz under x, y, z in order.  That the '
                'origin-to-parameter heuristics recover every OPW-layout robot is a behavioural claim over generated documents and not decided.')
 NOT_DECIDED = 'that the heuristics recover the parameters of every OPW-layout robot; name-decoration handling; xacro syntax coverage'
 ASSUMPTIONS = ['sxd_document parses or rejects arbitrary input without panicking', 'Rust regex and Python re agree on the syntax subset used by the angle pattern']
@@ -369,6 +370,7 @@ def run(ctx):
             slots_ok[fld] = same and bool(srcfld) and util.const_val(r[0]) == 0 and util.const_val(r[1]) == 6
     _parameter_handover(ctx, prog)
     _names_routing(ctx, prog, fu)
+    _leaf_readers(ctx, prog, fu)
     _component_table(ctx, prog, pp, opl[0])
     for nkey in sorted(ARMS):
         ctx.check(arms.get(nkey) == ARMS[nkey], 'R20.4', 'arm%d' % nkey, pp.where(0), pp.path,
@@ -741,3 +743,87 @@ def _names_routing(ctx, prog, fu):
             ctx.check(util.param_index(a) == own[0], 'R20.11', '%s->%s' % (p_.split('::')[-1], cb.path.split('::')[-1]), b.where(bi), b.path,
                       'the joint-name list must be handed on as it was given (explicit names would be ignored at this stage)', found=show(a, maxdepth=3))
     ctx.floor('R20.11 hand-overs', n, 3)
+
+
+def _leaf_readers(ctx, prog, fu):
+    """R20.12: the readers of single URDF elements.  The limits reader returns (angle of `lower`, angle of `upper`) - interpreted
+    with the attribute lookup and the angle parser scripted - and an error value when either attribute is missing; the origin
+    reader files the three numbers of `xyz` under x, y, z in that order."""
+    from .. import absint
+    from ..absint import Interp, Sym, SOME, NONE
+    ctx.rule('R20.12', 'limits reader = (angle(lower), angle(upper)), Err when an attribute is missing; origin reader = Vector3 { x: v[0], y: v[1], z: v[2] }')
+    reach = [prog.bodies[p_] for p_ in prog.reachable_bodies([fu.path]) if p_ in prog.bodies and p_.startswith('urdf::') and prog.bodies[p_].kind != 'Closure']
+    lim = [b for b in reach if b.arg_count == 1 and 'Element' in b.local_ty(1) and '(f64, f64)' in b.local_ty(0)]
+    angle = [b for b in reach if b.arg_count == 1 and b.local_ty(1) == '&str' and 'Result<f64' in b.local_ty(0).replace('std::result::', '')]
+    if len(lim) == 1 and len(angle) == 1:
+        b = lim[0]
+        ctx.fn(b)
+        for missing in (None, 'lower', 'upper'):
+            def val(I, st, a):
+                while isinstance(a, tuple) and a and a[0] in ('ref', 'refval', 'mref'):
+                    a = I.deref(a, st)
+                return a
+
+            def h_attr(I, st, a, t, b_, missing=missing):
+                nm = val(I, st, a[1])
+                if not isinstance(nm, str):
+                    raise absint.Unsupported('attribute name %r' % (nm,))
+                return NONE if nm == missing else SOME(Sym(('attr', nm)))
+
+            def h_value(I, st, a, t, b_):
+                v = val(I, st, a[0])
+                return Sym(('value',) + v.tag[1:]) if isinstance(v, Sym) else v
+
+            def h_angle(I, st, a, t, b_):
+                v = val(I, st, a[0])
+                return ('enum', 0, (Sym(('angle',) + (v.tag[1:] if isinstance(v, Sym) else (repr(v),))),))
+
+            def h_err(I, st, a, t, b_):
+                return Sym('error-value')
+            H = {'Element::attribute': h_attr, 'Attribute::value': h_value, cname(angle[0].path): h_angle, angle[0].path: h_angle,
+                 'Into::into': h_err, 'From::from': h_err, 'ToString::to_string': h_err, 'String::from': h_err, 'ToOwned::to_owned': h_err}
+            I = Interp(prog, H, fuel=20000, max_paths=8)
+            try:
+                outs = I.run(b.path, [Sym('limit-element')])
+            except (absint.Unsupported, absint.Undecided):
+                break
+            if len(outs) != 1:
+                break
+            r = outs[0].ret
+            if missing is None:
+                ok = r == ('enum', 0, ((Sym(('angle', 'lower')), Sym(('angle', 'upper'))),))
+                want = 'Ok((angle(lower), angle(upper)))'
+            else:
+                ok = isinstance(r, tuple) and r[0] == 'enum' and r[1] == 1
+                want = 'Err'
+            ctx.check(ok, 'R20.12', 'limits/%s' % ('both' if missing is None else 'no-' + missing), b.where(0), b.path,
+                      'the limits reader must return the angle of `lower` first and the angle of `upper` second, and an error value when one is missing',
+                      found=repr(r)[:200], expected=want, detail='by interpretation')
+    org = [b for b in reach if b.arg_count == 1 and 'Element' in b.local_ty(1) and 'urdf::Vector3' in b.local_ty(0)]
+    if len(org) == 1:
+        b = org[0]
+        ctx.fn(b)
+        for i, j, st in b.stmts():
+            rv = st['rv']
+            if rv['k'] == 'agg' and isinstance(rv.get('kind'), dict) and (rv['kind'].get('adt') or '').endswith('urdf::Vector3'):
+                t = b.rv_term(rv, (i, j))
+                vals = dict(zip(rv['kind'].get('fields') or [], [strip(x) for x in t[2:]]))
+                src = set()
+                order = []
+                for f in ('x', 'y', 'z'):
+                    v = vals.get(f)
+                    while isinstance(v, tuple) and v[0] in ('deref', 'ref'):
+                        v = strip(v[1])
+                    k = None
+                    if isinstance(v, tuple) and v[0] == 'idx':
+                        k = util.const_val(v[2])
+                        src.add(strip(v[1]))
+                    elif isinstance(v, tuple) and v[0] == 'call' and cname(v[1]) in ('Index::index',) and len(v) == 4:
+                        k = util.const_val(v[3])
+                        src.add(strip(v[2]))
+                    order.append(k)
+                plain = all(vals.get(f) is not None and util.param_index(vals.get(f)) is None for f in ('x', 'y', 'z'))
+                if order == [None, None, None] and plain and len(src) == 0:
+                    continue              # built from named locals (slice pattern `[x, y, z]`): order is fixed by the pattern
+                ctx.check(order == [0, 1, 2] and len(src) == 1, 'R20.12', 'origin/xyz-order', b.where(i, j), b.path,
+                          'the three numbers of `xyz` must be filed under x, y and z in that order', found=str(order))
